@@ -149,8 +149,7 @@ Proof.
 Qed.
 
 Lemma run_simple assigns items f c i :
-  simple_ok assigns items = true ->
-  (safe f c \/ sw_cmd (CSimple assigns items) = true) ->
+  simple_ok assigns items = true -> safe f c ->
   exists f' c', safe f' c' /\
     run (print_cmd (CSimple assigns items)) true f c i (match items with [] => true | _ => false end) f' c' i.
 Proof.
@@ -158,10 +157,7 @@ Proof.
   apply andb_true_iff in Hok. destruct Hok as [Hok Hne].
   apply andb_true_iff in Hok. destruct Hok as [Hassigns Hitems].
   cbn [print_cmd]. destruct assigns as [| a0 assigns].
-  - cbn [map app].
-    apply run_items_cmdstart; [exact Hitems |].
-    destruct Hs as [Hs | Hsw]; [left; exact Hs |].
-    right. cbn [sw_cmd] in Hsw. destruct items as [| [w | r] items]; try discriminate. exact I.
+  - cbn [map app]. apply run_items_cmdstart; [exact Hitems | left; exact Hs].
   - destruct (run_items_cmdstart items (-1) (-1) i Hitems (or_introl safe_m1)) as (f' & c' & Hs' & Hrun).
     exists f', c'. split; [exact Hs' |].
     eapply run_app; [apply run_assigns; [exact Hassigns | discriminate] | exact Hrun].
@@ -219,54 +215,39 @@ Qed.
 
 (* ---------- the induction over the tree ---------- *)
 
-(* the conclusion for a construct that starts at command start in lexer context i
-   and is described by the flow result r = (a', i') *)
-Definition reads (l : list ptok) (f c : Z) (i : bool) (r : bool * bool) : Prop :=
-  exists f' c', safe f' c' /\ run l true f c i (fst r) f' c' (snd r).
+(* At every command position the lexer is at command start, the counters are safe
+   and inCasePattern is false; the same holds after every construct, except that
+   atCommandStart is true only where the construct ends in a separator, a closing
+   reserved word or `)`. *)
+Definition reads (l : list ptok) (f c : Z) (closes : bool) : Prop :=
+  exists a' f' c', safe f' c' /\ (closes = true -> a' = true) /\ run l true f c false a' f' c' false.
 
-Definition G_cmd (c : cmd) : Prop := forall i r f c0,
-  wf_cmd c = true -> flow_cmd i c = Some r -> (safe f c0 \/ sw_cmd c = true) ->
-  nosemi_cmd c = true /\ reads (print_cmd c) f c0 i r.
-Definition G_compound (k : compound) : Prop := forall i r f c0,
-  wf_compound k = true -> flow_compound i k = Some r -> (safe f c0 \/ sw_cmd (CCompound k []) = true) ->
-  nosemi_compound k = true /\ reads (print_compound k) f c0 i r.
-Definition G_else (e : elsepart) : Prop := forall i i' f c0,
-  wf_else e = true -> flow_else i e = Some i' ->
-  nosemi_else e = true /\ reads (print_else e) f c0 i (true, i').
-Definition G_items (it : caseitems) : Prop := forall i' a f c0,
-  wf_items it = true -> flow_items true it = Some i' -> item_entry a f c0 ->
-  nosemi_items it = true /\
-  exists f' c', safe f' c' /\ run (print_items it) a f c0 true false f' c' i'.
-Definition G_clist (l : clist) : Prop := forall i r f c0,
-  wf_clist l = true -> flow_clist i l = Some r -> (safe f c0 \/ sw_clist l = true) ->
-  nosemi_clist l = true /\ reads (print_clist l) f c0 i r.
+Definition G_cmd (c : cmd) : Prop := forall f c0,
+  wf_cmd c = true -> faithful_cmd c = true -> safe f c0 -> reads (print_cmd c) f c0 (ends_cmd c).
+Definition G_compound (k : compound) : Prop := forall f c0,
+  wf_compound k = true -> faithful_compound k = true -> safe f c0 -> reads (print_compound k) f c0 true.
+Definition G_else (e : elsepart) : Prop := forall f c0,
+  wf_else e = true -> faithful_else e = true -> safe f c0 -> reads (print_else e) f c0 true.
+Definition G_items (it : caseitems) : Prop := forall a f c0,
+  wf_items it = true -> faithful_items it = true -> item_entry a f c0 ->
+  exists f' c', safe f' c' /\ run (print_items it) a f c0 true true f' c' false.
+Definition G_clist (l : clist) : Prop := forall f c0,
+  wf_clist l = true -> faithful_clist l = true -> safe f c0 -> reads (print_clist l) f c0 (closed_clist l).
 Definition G_body (b : cbody) : Prop :=
   match b with BNone => True | BSome l => G_clist l end.
-Definition G_pipe (p : pipe) : Prop := forall i r f c0,
-  wf_pipe p = true -> flow_pipe i p = Some r -> (safe f c0 \/ sw_pipe p = true) ->
-  nosemi_pipe p = true /\ reads (print_pipe p) f c0 i r.
-Definition G_andor (a : andor) : Prop := forall i r f c0,
-  wf_andor a = true -> flow_andor i a = Some r -> (safe f c0 \/ sw_andor a = true) ->
-  nosemi_andor a = true /\ reads (print_andor a) f c0 i r.
-Definition G_seq (q : seq) : Prop := forall i r f c0,
-  wf_seq q = true -> flow_seq i q = Some r -> (safe f c0 \/ sw_seq q = true) ->
-  nosemi_seq q = true /\ reads (print_seq q) f c0 i r.
-
-(* taking a flow equation apart *)
-Ltac inv_flow H :=
-  cbn [flow_cmd flow_compound flow_else flow_items flow_pipe flow_andor flow_seq flow_clist] in H;
-  unfold opt_bind, closed in H;
-  repeat match type of H with
-  | context [match ?x with _ => _ end] => destruct x eqn:?; try discriminate H
-  end;
-  try (injection H as <-).
+Definition G_pipe (p : pipe) : Prop := forall f c0,
+  wf_pipe p = true -> faithful_pipe p = true -> safe f c0 -> reads (print_pipe p) f c0 (ends_pipe p).
+Definition G_andor (a : andor) : Prop := forall f c0,
+  wf_andor a = true -> faithful_andor a = true -> safe f c0 -> reads (print_andor a) f c0 (ends_andor a).
+Definition G_seq (q : seq) : Prop := forall f c0,
+  wf_seq q = true -> faithful_seq q = true -> safe f c0 -> reads (print_seq q) f c0 (ends_seq q).
 
 Ltac kwstep lem := eapply run_cons; [intro; apply lem |].
 Ltac kwlast lem := eapply run_snoc; [| intro; apply lem].
 
-Lemma reads_intro l f c i a' i' f' c' :
-  safe f' c' -> run l true f c i a' f' c' i' -> reads l f c i (a', i').
-Proof. intros Hs Hr. exists f', c'. split; assumption. Qed.
+Lemma reads_closed l f c f' c' closes :
+  safe f' c' -> run l true f c false true f' c' false -> reads l f c closes.
+Proof. intros Hs Hr. exists true, f', c'. split; [exact Hs | split; [intros _; reflexivity | exact Hr]]. Qed.
 
 Lemma safe_2_m1 : safe 2 (-1).
 Proof. unfold safe. lia. Qed.
@@ -282,10 +263,16 @@ Qed.
 Lemma run_sep s a f c i : run [print_sep s] a f c i true f c i.
 Proof. destruct s; apply run_one; intro; [apply lex_semi | apply lex_amp]. Qed.
 
-Ltac split_wf H :=
+Ltac split_b H :=
   repeat match type of H with
-  | (_ && _)%bool = true => let H1 := fresh "Hwf" in apply andb_true_iff in H; destruct H as [H H1]
+  | (_ && _)%bool = true => let H1 := fresh "Hb" in apply andb_true_iff in H; destruct H as [H H1]
   end.
+
+(* a list that must end at command start, then a closing reserved word *)
+Ltac use_closed IH Hwf Hcl Hfa f0 c00 Hs0 f1 c1 Hs1 Hrun1 :=
+  let a1 := fresh "a1" in let Ha := fresh "Ha" in
+  destruct (IH f0 c00 Hwf Hfa Hs0) as (a1 & f1 & c1 & Hs1 & Ha & Hrun1);
+  rewrite (Ha Hcl) in Hrun1.
 
 Theorem lexer_reads_tree :
   (forall c, G_cmd c) /\ (forall k, G_compound k) /\ (forall e, G_else e) /\ (forall it, G_items it) /\
@@ -294,172 +281,142 @@ Theorem lexer_reads_tree :
 Proof.
   apply posix_mutind.
   - (* CSimple *)
-    intros assigns items i r f c0 Hwf Hfl Hs. cbn [wf_cmd] in Hwf. cbn [flow_cmd] in Hfl. injection Hfl as <-.
-    split; [reflexivity |].
-    destruct (run_simple assigns items f c0 i Hwf Hs) as (f' & c' & Hs' & Hrun).
-    exists f', c'. split; [exact Hs' | exact Hrun].
+    intros assigns items f c0 Hwf _ Hs. cbn [wf_cmd] in Hwf.
+    destruct (run_simple assigns items f c0 false Hwf Hs) as (f' & c' & Hs' & Hrun).
+    exists (match items with [] => true | _ => false end), f', c'.
+    split; [exact Hs' |]. split; [cbn [ends_cmd]; discriminate | exact Hrun].
   - (* CCompound *)
-    intros k IHk rs i r f c0 Hwf Hfl Hs. cbn [wf_cmd] in Hwf.
-    apply andb_true_iff in Hwf. destruct Hwf as [Hk Hrs].
-    cbn [flow_cmd] in Hfl. unfold opt_bind in Hfl.
-    destruct (flow_compound i k) as [rk |] eqn:Ek; [| discriminate]. injection Hfl as <-.
-    destruct (IHk i rk f c0 Hk Ek) as [Hns (f1 & c1 & Hs1 & Hrun1)].
-    { destruct Hs as [Hs | Hsw]; [left; exact Hs | right; exact Hsw]. }
-    split; [exact Hns |].
-    destruct (run_redirs rs (fst rk) f1 c1 (snd rk) Hrs Hs1) as (f2 & c2 & Hs2 & Hrun2).
-    exists f2, c2. split; [exact Hs2 |]. cbn [print_cmd fst snd].
-    eapply run_app; [exact Hrun1 | exact Hrun2].
+    intros k IHk rs f c0 Hwf Hfa Hs. cbn [wf_cmd] in Hwf. apply andb_true_iff in Hwf. destruct Hwf as [Hk Hrs].
+    cbn [faithful_cmd] in Hfa.
+    destruct (IHk f c0 Hk Hfa Hs) as (a1 & f1 & c1 & Hs1 & Ha1 & Hrun1). rewrite (Ha1 eq_refl) in Hrun1.
+    destruct (run_redirs rs true f1 c1 false Hrs Hs1) as (f2 & c2 & Hs2 & Hrun2).
+    exists (match rs with [] => true | _ => false end), f2, c2. split; [exact Hs2 |]. split.
+    + cbn [ends_cmd]. destruct rs; [reflexivity | discriminate].
+    + cbn [print_cmd]. eapply run_app; [exact Hrun1 | exact Hrun2].
   - (* CFuncDef *)
-    intros name body IHk rs i r f c0 Hwf Hfl Hs. cbn [wf_cmd] in Hwf.
+    intros name body IHk rs f c0 Hwf Hfa Hs. cbn [wf_cmd] in Hwf.
     apply andb_true_iff in Hwf. destruct Hwf as [Hwf Hrs].
-    apply andb_true_iff in Hwf. destruct Hwf as [Hname Hbody].
-    cbn [flow_cmd] in Hfl. unfold opt_bind in Hfl.
-    destruct (flow_compound false body) as [rk |] eqn:Ek; [| discriminate]. injection Hfl as <-.
-    destruct (IHk false rk (-1) (-1) Hbody Ek (or_introl safe_m1)) as [Hns (f1 & c1 & Hs1 & Hrun1)].
-    split; [exact Hns |].
-    destruct (run_redirs rs (fst rk) f1 c1 (snd rk) Hrs Hs1) as (f2 & c2 & Hs2 & Hrun2).
-    exists f2, c2. split; [exact Hs2 |]. cbn [print_cmd fst snd].
-    eapply run_cons; [intro; apply lex_name; exact Hname |].
-    kwstep lex_lparen. kwstep lex_rparen.
-    eapply run_app; [exact Hrun1 | exact Hrun2].
+    apply andb_true_iff in Hwf. destruct Hwf as [Hname Hbody]. cbn [faithful_cmd] in Hfa.
+    destruct (IHk (-1) (-1) Hbody Hfa safe_m1) as (a1 & f1 & c1 & Hs1 & Ha1 & Hrun1). rewrite (Ha1 eq_refl) in Hrun1.
+    destruct (run_redirs rs true f1 c1 false Hrs Hs1) as (f2 & c2 & Hs2 & Hrun2).
+    exists (match rs with [] => true | _ => false end), f2, c2. split; [exact Hs2 |]. split.
+    + cbn [ends_cmd]. destruct rs; [reflexivity | discriminate].
+    + cbn [print_cmd]. eapply run_cons; [intro; apply lex_name; exact Hname |].
+      kwstep lex_lparen. cbn [negb]. kwstep lex_rparen.
+      eapply run_app; [exact Hrun1 | exact Hrun2].
   - (* KBrace *)
-    intros l IH i r f c0 Hwf Hfl Hs. cbn [wf_compound] in Hwf.
-    cbn [flow_compound] in Hfl. unfold opt_bind, closed in Hfl.
-    destruct (flow_clist i l) as [[[] i1] |] eqn:El; try discriminate. injection Hfl as <-.
-    destruct (IH i (true, i1) (-1) (-1) Hwf El (or_introl safe_m1)) as [Hns (f1 & c1 & Hs1 & Hrun1)].
-    split; [exact Hns |]. apply (reads_intro _ _ _ _ true i1 (-1) (-1) safe_m1). cbn [print_compound].
+    intros l IH f c0 Hwf Hfa Hs. cbn [wf_compound] in Hwf. cbn [faithful_compound] in Hfa.
+    apply andb_true_iff in Hfa. destruct Hfa as [Hcl Hfa].
+    use_closed IH Hwf Hcl Hfa (-1) (-1) safe_m1 f1 c1 Hs1 Hrun1.
+    apply (reads_closed _ _ _ (-1) (-1) _ safe_m1). cbn [print_compound].
     kwstep lex_lbrace. kwlast lex_rbrace. exact Hrun1.
   - (* KSubshell *)
-    intros l IH i r f c0 Hwf Hfl Hs. cbn [wf_compound] in Hwf. cbn [flow_compound] in Hfl.
-    destruct i; [discriminate |]. unfold opt_bind in Hfl.
-    destruct (flow_clist false l) as [rl |] eqn:El; [| discriminate]. injection Hfl as <-.
-    destruct (IH false rl f c0 Hwf El) as [Hns (f1 & c1 & Hs1 & Hrun1)].
-    { destruct Hs as [Hs | Hsw]; [left; exact Hs | right; exact Hsw]. }
-    split; [exact Hns |]. apply (reads_intro _ _ _ _ true false f1 c1 Hs1). cbn [print_compound].
+    intros l IH f c0 Hwf Hfa Hs. cbn [wf_compound] in Hwf. cbn [faithful_compound] in Hfa.
+    destruct (IH f c0 Hwf Hfa Hs) as (a1 & f1 & c1 & Hs1 & _ & Hrun1).
+    apply (reads_closed _ _ _ f1 c1 _ Hs1). cbn [print_compound].
     kwstep lex_lparen. cbn [negb]. kwlast lex_rparen. exact Hrun1.
   - (* KFor *)
-    intros name m body IH i r f c0 Hwf Hfl Hs. cbn [wf_compound] in Hwf.
+    intros name m body IH f c0 Hwf Hfa Hs. cbn [wf_compound] in Hwf.
     apply andb_true_iff in Hwf. destruct Hwf as [Hwf Hbody].
     apply andb_true_iff in Hwf. destruct Hwf as [Hname Hm].
-    cbn [flow_compound] in Hfl.
-    destruct m as [| | ws]; [| discriminate |]; unfold opt_bind, closed in Hfl;
-      destruct (flow_clist i body) as [[[] i1] |] eqn:El; try discriminate; injection Hfl as <-.
-    + destruct (IH i (true, i1) 2 (-1) Hbody El (or_introl safe_2_m1)) as [Hns (f1 & c1 & Hs1 & Hrun1)].
-      split; [exact Hns |]. apply (reads_intro _ _ _ _ true i1 (-1) (-1) safe_m1). cbn [print_compound app].
-      kwstep lex_for. eapply run_cons; [intro; apply lex_arg_for_name; exact Hname |].
+    cbn [faithful_compound] in Hfa. apply andb_true_iff in Hfa. destruct Hfa as [Hcl Hfa].
+    apply (reads_closed _ _ _ (-1) (-1) _ safe_m1). cbn [print_compound].
+    kwstep lex_for. eapply run_cons; [intro; apply lex_arg_for_name; exact Hname |].
+    destruct m as [| | ws]; cbn [app].
+    + use_closed IH Hbody Hcl Hfa 2 (-1) safe_2_m1 f1 c1 Hs1 Hrun1.
       kwstep lex_for_do. kwlast lex_done. exact Hrun1.
-    + destruct (run_words ws 2 (-1) i Hm safe_2_m1) as (f1 & c1 & Hs1 & Hrunw).
-      destruct (IH i (true, i1) (-1) (-1) Hbody El (or_introl safe_m1)) as [Hns (f2 & c2 & Hs2 & Hrun2)].
-      split; [exact Hns |]. apply (reads_intro _ _ _ _ true i1 (-1) (-1) safe_m1). cbn [print_compound app].
-      kwstep lex_for. eapply run_cons; [intro; apply lex_arg_for_name; exact Hname |].
+    + use_closed IH Hbody Hcl Hfa (-1) (-1) safe_m1 f1 c1 Hs1 Hrun1.
+      kwstep lex_semi. kwstep lex_do. kwlast lex_done. exact Hrun1.
+    + destruct (run_words ws 2 (-1) false Hm safe_2_m1) as (f1 & c1 & Hs1 & Hrunw).
+      use_closed IH Hbody Hcl Hfa (-1) (-1) safe_m1 f2 c2 Hs2 Hrun2.
       kwstep lex_for_in. rewrite <- app_assoc. eapply run_app; [exact Hrunw |]. cbn [app].
       kwstep lex_semi. kwstep lex_do. kwlast lex_done. exact Hrun2.
   - (* KCase *)
-    intros w items IH i r f c0 Hwf Hfl Hs. cbn [wf_compound] in Hwf.
-    apply andb_true_iff in Hwf. destruct Hwf as [Hw Hitems].
-    cbn [flow_compound] in Hfl. unfold opt_bind in Hfl.
-    destruct (flow_items true items) as [i1 |] eqn:Ei; [| discriminate]. injection Hfl as <-.
-    destruct (IH i1 false (-1) 2 Hitems Ei (or_introl (conj eq_refl (conj eq_refl eq_refl))))
-      as [Hns (f1 & c1 & Hs1 & Hrun1)].
-    split; [exact Hns |]. apply (reads_intro _ _ _ _ false i1 f1 c1 Hs1). cbn [print_compound].
+    intros w items IH f c0 Hwf Hfa Hs. cbn [wf_compound] in Hwf.
+    apply andb_true_iff in Hwf. destruct Hwf as [Hw Hitems]. cbn [faithful_compound] in Hfa.
+    destruct (IH false (-1) 2 Hitems Hfa (or_introl (conj eq_refl (conj eq_refl eq_refl))))
+      as (f1 & c1 & Hs1 & Hrun1).
+    apply (reads_closed _ _ _ f1 c1 _ Hs1). cbn [print_compound].
     kwstep lex_case. eapply run_cons; [intro; apply lex_arg_case_subject; exact Hw |].
     kwstep lex_case_in. exact Hrun1.
   - (* KIf *)
-    intros c IHc t IHt e IHe i r f c0 Hwf Hfl Hs. cbn [wf_compound] in Hwf.
+    intros c IHc t IHt e IHe f c0 Hwf Hfa Hs. cbn [wf_compound] in Hwf.
     apply andb_true_iff in Hwf. destruct Hwf as [Hwf He].
     apply andb_true_iff in Hwf. destruct Hwf as [Hc Ht].
-    cbn [flow_compound] in Hfl. unfold opt_bind, closed in Hfl.
-    destruct (flow_clist i c) as [[[] i1] |] eqn:Ec; try discriminate.
-    destruct (flow_clist i1 t) as [[[] i2] |] eqn:Et; try discriminate.
-    destruct (flow_else i2 e) as [i3 |] eqn:Ee; try discriminate. injection Hfl as <-.
-    destruct (IHc i (true, i1) (-1) (-1) Hc Ec (or_introl safe_m1)) as [Hn1 (f1 & c1 & Hs1 & Hrun1)].
-    destruct (IHt i1 (true, i2) (-1) (-1) Ht Et (or_introl safe_m1)) as [Hn2 (f2 & c2 & Hs2 & Hrun2)].
-    destruct (IHe i2 i3 f2 c2 He Ee) as [Hn3 (f3 & c3 & Hs3 & Hrun3)].
-    split; [cbn [nosemi_compound]; rewrite Hn1, Hn2, Hn3; reflexivity |].
-    apply (reads_intro _ _ _ _ true i3 f3 c3 Hs3). cbn [print_compound].
+    cbn [faithful_compound] in Hfa. split_b Hfa.
+    use_closed IHc Hc Hfa Hb2 (-1) (-1) safe_m1 f1 c1 Hs1 Hrun1.
+    use_closed IHt Ht Hb1 Hb0 (-1) (-1) safe_m1 f2 c2 Hs2 Hrun2.
+    destruct (IHe f2 c2 He Hb Hs2) as (a3 & f3 & c3 & Hs3 & Ha3 & Hrun3). rewrite (Ha3 eq_refl) in Hrun3.
+    apply (reads_closed _ _ _ f3 c3 _ Hs3). cbn [print_compound].
     kwstep lex_if. eapply run_app; [exact Hrun1 |]. kwstep lex_then.
     eapply run_app; [exact Hrun2 | exact Hrun3].
   - (* KWhile *)
-    intros c IHc b IHb i r f c0 Hwf Hfl Hs. cbn [wf_compound] in Hwf.
-    apply andb_true_iff in Hwf. destruct Hwf as [Hc Hb].
-    cbn [flow_compound] in Hfl. unfold opt_bind, closed in Hfl.
-    destruct (flow_clist i c) as [[[] i1] |] eqn:Ec; try discriminate.
-    destruct (flow_clist i1 b) as [[[] i2] |] eqn:Eb; try discriminate. injection Hfl as <-.
-    destruct (IHc i (true, i1) (-1) (-1) Hc Ec (or_introl safe_m1)) as [Hn1 (f1 & c1 & Hs1 & Hrun1)].
-    destruct (IHb i1 (true, i2) (-1) (-1) Hb Eb (or_introl safe_m1)) as [Hn2 (f2 & c2 & Hs2 & Hrun2)].
-    split; [cbn [nosemi_compound]; rewrite Hn1, Hn2; reflexivity |].
-    apply (reads_intro _ _ _ _ true i2 (-1) (-1) safe_m1). cbn [print_compound].
+    intros c IHc b IHb f c0 Hwf Hfa Hs. cbn [wf_compound] in Hwf.
+    apply andb_true_iff in Hwf. destruct Hwf as [Hc Hb'].
+    cbn [faithful_compound] in Hfa. split_b Hfa.
+    use_closed IHc Hc Hfa Hb1 (-1) (-1) safe_m1 f1 c1 Hs1 Hrun1.
+    use_closed IHb Hb' Hb0 Hb (-1) (-1) safe_m1 f2 c2 Hs2 Hrun2.
+    apply (reads_closed _ _ _ (-1) (-1) _ safe_m1). cbn [print_compound].
     kwstep lex_while. eapply run_app; [exact Hrun1 |]. kwstep lex_do. kwlast lex_done. exact Hrun2.
   - (* KUntil *)
-    intros c IHc b IHb i r f c0 Hwf Hfl Hs. cbn [wf_compound] in Hwf.
-    apply andb_true_iff in Hwf. destruct Hwf as [Hc Hb].
-    cbn [flow_compound] in Hfl. unfold opt_bind, closed in Hfl.
-    destruct (flow_clist i c) as [[[] i1] |] eqn:Ec; try discriminate.
-    destruct (flow_clist i1 b) as [[[] i2] |] eqn:Eb; try discriminate. injection Hfl as <-.
-    destruct (IHc i (true, i1) (-1) (-1) Hc Ec (or_introl safe_m1)) as [Hn1 (f1 & c1 & Hs1 & Hrun1)].
-    destruct (IHb i1 (true, i2) (-1) (-1) Hb Eb (or_introl safe_m1)) as [Hn2 (f2 & c2 & Hs2 & Hrun2)].
-    split; [cbn [nosemi_compound]; rewrite Hn1, Hn2; reflexivity |].
-    apply (reads_intro _ _ _ _ true i2 (-1) (-1) safe_m1). cbn [print_compound].
+    intros c IHc b IHb f c0 Hwf Hfa Hs. cbn [wf_compound] in Hwf.
+    apply andb_true_iff in Hwf. destruct Hwf as [Hc Hb'].
+    cbn [faithful_compound] in Hfa. split_b Hfa.
+    use_closed IHc Hc Hfa Hb1 (-1) (-1) safe_m1 f1 c1 Hs1 Hrun1.
+    use_closed IHb Hb' Hb0 Hb (-1) (-1) safe_m1 f2 c2 Hs2 Hrun2.
+    apply (reads_closed _ _ _ (-1) (-1) _ safe_m1). cbn [print_compound].
     kwstep lex_until. eapply run_app; [exact Hrun1 |]. kwstep lex_do. kwlast lex_done. exact Hrun2.
   - (* ENone *)
-    intros i i' f c0 _ Hfl. cbn [flow_else] in Hfl. injection Hfl as <-.
-    split; [reflexivity |]. apply (reads_intro _ _ _ _ true i (-1) (-1) safe_m1). cbn [print_else].
+    intros f c0 _ _ _. apply (reads_closed _ _ _ (-1) (-1) _ safe_m1). cbn [print_else].
     apply run_one. intro. apply lex_fi.
   - (* EElse *)
-    intros l IH i i' f c0 Hwf Hfl. cbn [wf_else] in Hwf. cbn [flow_else] in Hfl. unfold closed in Hfl.
-    destruct (flow_clist i l) as [[[] i1] |] eqn:El; try discriminate. injection Hfl as <-.
-    destruct (IH i (true, i1) (-1) (-1) Hwf El (or_introl safe_m1)) as [Hns (f1 & c1 & Hs1 & Hrun1)].
-    split; [exact Hns |]. apply (reads_intro _ _ _ _ true i1 (-1) (-1) safe_m1). cbn [print_else].
+    intros l IH f c0 Hwf Hfa Hs. cbn [wf_else] in Hwf. cbn [faithful_else] in Hfa.
+    apply andb_true_iff in Hfa. destruct Hfa as [Hcl Hfa].
+    use_closed IH Hwf Hcl Hfa (-1) (-1) safe_m1 f1 c1 Hs1 Hrun1.
+    apply (reads_closed _ _ _ (-1) (-1) _ safe_m1). cbn [print_else].
     kwstep lex_else. kwlast lex_fi. exact Hrun1.
   - (* EElif *)
-    intros c IHc t IHt e IHe i i' f c0 Hwf Hfl. cbn [wf_else] in Hwf.
+    intros c IHc t IHt e IHe f c0 Hwf Hfa Hs. cbn [wf_else] in Hwf.
     apply andb_true_iff in Hwf. destruct Hwf as [Hwf He].
     apply andb_true_iff in Hwf. destruct Hwf as [Hc Ht].
-    cbn [flow_else] in Hfl. unfold opt_bind, closed in Hfl.
-    destruct (flow_clist i c) as [[[] i1] |] eqn:Ec; try discriminate.
-    destruct (flow_clist i1 t) as [[[] i2] |] eqn:Et; try discriminate.
-    destruct (IHc i (true, i1) (-1) (-1) Hc Ec (or_introl safe_m1)) as [Hn1 (f1 & c1 & Hs1 & Hrun1)].
-    destruct (IHt i1 (true, i2) (-1) (-1) Ht Et (or_introl safe_m1)) as [Hn2 (f2 & c2 & Hs2 & Hrun2)].
-    destruct (IHe i2 i' f2 c2 He Hfl) as [Hn3 (f3 & c3 & Hs3 & Hrun3)].
-    split; [cbn [nosemi_else]; rewrite Hn1, Hn2, Hn3; reflexivity |].
-    apply (reads_intro _ _ _ _ true i' f3 c3 Hs3). cbn [print_else].
+    cbn [faithful_else] in Hfa. split_b Hfa.
+    use_closed IHc Hc Hfa Hb2 (-1) (-1) safe_m1 f1 c1 Hs1 Hrun1.
+    use_closed IHt Ht Hb1 Hb0 (-1) (-1) safe_m1 f2 c2 Hs2 Hrun2.
+    destruct (IHe f2 c2 He Hb Hs2) as (a3 & f3 & c3 & Hs3 & Ha3 & Hrun3). rewrite (Ha3 eq_refl) in Hrun3.
+    apply (reads_closed _ _ _ f3 c3 _ Hs3). cbn [print_else].
     kwstep lex_elif. eapply run_app; [exact Hrun1 |]. kwstep lex_then.
     eapply run_app; [exact Hrun2 | exact Hrun3].
   - (* CINil *)
-    intros i' a f c0 _ Hfl Hentry. cbn [flow_items] in Hfl. injection Hfl as <-.
-    split; [reflexivity |]. cbn [print_items].
+    intros a f c0 _ _ Hentry. cbn [print_items].
     destruct Hentry as [(-> & -> & ->) | (-> & Hs)].
     + exists (-1), 3. split; [apply safe_m1_3 |]. apply run_one. intro. apply lex_case_in_esac.
     + exists (-1), (-1). split; [apply safe_m1 |]. apply run_one. intro. apply lex_esac_cmdstart.
   - (* CILast *)
-    intros lp p ps body IHb i' a f c0 Hwf Hfl Hentry. cbn [wf_items] in Hwf.
+    intros lp p ps body IHb a f c0 Hwf Hfa Hentry. cbn [wf_items] in Hwf.
     apply andb_true_iff in Hwf. destruct Hwf as [Hwf Hbody].
     apply andb_true_iff in Hwf. destruct Hwf as [Hp Hps].
     destruct (run_selector lp p ps a f c0 Hp Hps Hentry) as (f1 & c1 & Hs1 & Hrun1).
-    cbn [flow_items] in Hfl. cbn [print_items]. destruct body as [| l].
-    + injection Hfl as <-. split; [reflexivity |].
-      exists (-1), (-1). split; [apply safe_m1 |].
-      eapply run_app; [exact Hrun1 |]. cbn [print_body app]. apply run_one. intro. apply lex_esac_cmdstart.
-    + unfold closed in Hfl. destruct (flow_clist false l) as [[[] i1] |] eqn:El; try discriminate.
-      injection Hfl as <-. cbn [G_body] in IHb. cbn [wf_body] in Hbody.
-      destruct (IHb false (true, i1) f1 c1 Hbody El (or_introl Hs1)) as [Hns (f2 & c2 & Hs2 & Hrun2)].
-      split; [exact Hns |]. exists (-1), (-1). split; [apply safe_m1 |].
+    cbn [print_items]. exists (-1), (-1). split; [apply safe_m1 |]. destruct body as [| l].
+    + eapply run_app; [exact Hrun1 |]. cbn [print_body app]. apply run_one. intro. apply lex_esac_cmdstart.
+    + cbn [faithful_items] in Hfa. apply andb_true_iff in Hfa. destruct Hfa as [Hcl Hfa].
+      cbn [G_body] in IHb. cbn [wf_body] in Hbody.
+      use_closed IHb Hbody Hcl Hfa f1 c1 Hs1 f2 c2 Hs2 Hrun2.
       eapply run_app; [exact Hrun1 |]. cbn [print_body]. kwlast lex_esac_cmdstart. exact Hrun2.
   - (* CICons *)
-    intros lp p ps body IHb rest IHr i' a f c0 Hwf Hfl Hentry. cbn [wf_items] in Hwf.
+    intros lp p ps body IHb rest IHr a f c0 Hwf Hfa Hentry. cbn [wf_items] in Hwf.
     apply andb_true_iff in Hwf. destruct Hwf as [Hwf Hrest].
     apply andb_true_iff in Hwf. destruct Hwf as [Hwf Hbody].
     apply andb_true_iff in Hwf. destruct Hwf as [Hp Hps].
     destruct (run_selector lp p ps a f c0 Hp Hps Hentry) as (f1 & c1 & Hs1 & Hrun1).
-    cbn [flow_items] in Hfl. cbn [print_items]. destruct body as [| l].
-    + destruct (IHr i' true f1 c1 Hrest Hfl (or_intror (conj eq_refl Hs1))) as [Hns (f3 & c3 & Hs3 & Hrun3)].
-      split; [exact Hns |]. exists f3, c3. split; [exact Hs3 |].
+    cbn [print_items]. destruct body as [| l].
+    + cbn [faithful_items] in Hfa.
+      destruct (IHr true f1 c1 Hrest Hfa (or_intror (conj eq_refl Hs1))) as (f3 & c3 & Hs3 & Hrun3).
+      exists f3, c3. split; [exact Hs3 |].
       eapply run_app; [exact Hrun1 |]. cbn [print_body app]. kwstep lex_semisemi. exact Hrun3.
-    + unfold opt_bind in Hfl. destruct (flow_clist false l) as [rl |] eqn:El; [| discriminate].
+    + cbn [faithful_items] in Hfa. apply andb_true_iff in Hfa. destruct Hfa as [Hfl Hfr].
       cbn [G_body] in IHb. cbn [wf_body] in Hbody.
-      destruct (IHb false rl f1 c1 Hbody El (or_introl Hs1)) as [Hn2 (f2 & c2 & Hs2 & Hrun2)].
-      destruct (IHr i' true f2 c2 Hrest Hfl (or_intror (conj eq_refl Hs2))) as [Hn3 (f3 & c3 & Hs3 & Hrun3)].
-      split; [cbn [nosemi_items nosemi_body]; rewrite Hn2, Hn3; reflexivity |].
+      destruct (IHb f1 c1 Hbody Hfl Hs1) as (a2 & f2 & c2 & Hs2 & _ & Hrun2).
+      destruct (IHr true f2 c2 Hrest Hfr (or_intror (conj eq_refl Hs2))) as (f3 & c3 & Hs3 & Hrun3).
       exists f3, c3. split; [exact Hs3 |].
       eapply run_app; [exact Hrun1 |]. cbn [print_body]. eapply run_app; [exact Hrun2 |].
       kwstep lex_semisemi. exact Hrun3.
@@ -468,67 +425,57 @@ Proof.
   - (* BSome *)
     intros l IH. exact IH.
   - (* PCmd *)
-    intros c IH i r f c0 Hwf Hfl Hs. cbn [wf_pipe flow_pipe sw_pipe print_pipe nosemi_pipe] in *.
-    exact (IH i r f c0 Hwf Hfl Hs).
+    intros c IH f c0 Hwf Hfa Hs. cbn [wf_pipe faithful_pipe print_pipe ends_pipe] in *.
+    exact (IH f c0 Hwf Hfa Hs).
   - (* PPipe *)
-    intros p IHp c IHc i r f c0 Hwf Hfl Hs. cbn [wf_pipe] in Hwf.
+    intros p IHp c IHc f c0 Hwf Hfa Hs. cbn [wf_pipe] in Hwf.
     apply andb_true_iff in Hwf. destruct Hwf as [Hp Hc].
-    cbn [flow_pipe] in Hfl. unfold opt_bind in Hfl.
-    destruct (flow_pipe i p) as [[a1 []] |] eqn:Ep; try discriminate. cbn [snd] in Hfl.
-    destruct (IHp i (a1, false) f c0 Hp Ep Hs) as [Hn1 (f1 & c1 & Hs1 & Hrun1)].
-    destruct (IHc false r f1 c1 Hc Hfl (or_introl Hs1)) as [Hn2 (f2 & c2 & Hs2 & Hrun2)].
-    split; [cbn [nosemi_pipe]; rewrite Hn1, Hn2; reflexivity |].
-    exists f2, c2. split; [exact Hs2 |]. cbn [print_pipe].
+    cbn [faithful_pipe] in Hfa. apply andb_true_iff in Hfa. destruct Hfa as [Hfp Hfc].
+    destruct (IHp f c0 Hp Hfp Hs) as (a1 & f1 & c1 & Hs1 & _ & Hrun1).
+    destruct (IHc f1 c1 Hc Hfc Hs1) as (a2 & f2 & c2 & Hs2 & Ha2 & Hrun2).
+    exists a2, f2, c2. split; [exact Hs2 |]. split; [exact Ha2 |]. cbn [print_pipe].
     eapply run_app; [exact Hrun1 |]. kwstep lex_pipe. exact Hrun2.
   - (* AOne *)
-    intros bang p IH i r f c0 Hwf Hfl Hs. cbn [wf_andor flow_andor nosemi_andor print_andor] in *.
-    destruct bang.
-    + destruct (IH i r (-1) (-1) Hwf Hfl (or_introl safe_m1)) as [Hns (f1 & c1 & Hs1 & Hrun1)].
-      split; [exact Hns |]. exists f1, c1. split; [exact Hs1 |]. cbn [print_bang app].
-      kwstep lex_bang. exact Hrun1.
-    + exact (IH i r f c0 Hwf Hfl Hs).
+    intros bang p IH f c0 Hwf Hfa Hs. cbn [wf_andor faithful_andor print_andor ends_andor] in *.
+    destruct (run_bang bang f c0 false Hs) as (f1 & c1 & Hs1 & Hrunb).
+    destruct (IH f1 c1 Hwf Hfa Hs1) as (a2 & f2 & c2 & Hs2 & Ha2 & Hrun2).
+    exists a2, f2, c2. split; [exact Hs2 |]. split; [exact Ha2 |].
+    eapply run_app; [exact Hrunb | exact Hrun2].
   - (* AAnd *)
-    intros a IHa bang p IHp i r f c0 Hwf Hfl Hs. cbn [wf_andor] in Hwf.
+    intros a IHa bang p IHp f c0 Hwf Hfa Hs. cbn [wf_andor] in Hwf.
     apply andb_true_iff in Hwf. destruct Hwf as [Ha Hp].
-    cbn [flow_andor] in Hfl. unfold opt_bind in Hfl.
-    destruct (flow_andor i a) as [ra |] eqn:Ea; [| discriminate].
-    destruct (IHa i ra f c0 Ha Ea Hs) as [Hn1 (f1 & c1 & Hs1 & Hrun1)].
-    destruct (run_bang bang f1 c1 (snd ra) Hs1) as (f2 & c2 & Hs2 & Hrunb).
-    destruct (IHp (snd ra) r f2 c2 Hp Hfl (or_introl Hs2)) as [Hn2 (f3 & c3 & Hs3 & Hrun3)].
-    split; [cbn [nosemi_andor]; rewrite Hn1, Hn2; reflexivity |].
-    exists f3, c3. split; [exact Hs3 |]. cbn [print_andor].
+    cbn [faithful_andor] in Hfa. apply andb_true_iff in Hfa. destruct Hfa as [Hfa' Hfp].
+    destruct (IHa f c0 Ha Hfa' Hs) as (a1 & f1 & c1 & Hs1 & _ & Hrun1).
+    destruct (run_bang bang f1 c1 false Hs1) as (f2 & c2 & Hs2 & Hrunb).
+    destruct (IHp f2 c2 Hp Hfp Hs2) as (a3 & f3 & c3 & Hs3 & Ha3 & Hrun3).
+    exists a3, f3, c3. split; [exact Hs3 |]. split; [exact Ha3 |]. cbn [print_andor].
     eapply run_app; [exact Hrun1 |]. kwstep lex_andand. eapply run_app; [exact Hrunb | exact Hrun3].
   - (* AOr *)
-    intros a IHa bang p IHp i r f c0 Hwf Hfl Hs. cbn [wf_andor] in Hwf.
+    intros a IHa bang p IHp f c0 Hwf Hfa Hs. cbn [wf_andor] in Hwf.
     apply andb_true_iff in Hwf. destruct Hwf as [Ha Hp].
-    cbn [flow_andor] in Hfl. unfold opt_bind in Hfl.
-    destruct (flow_andor i a) as [ra |] eqn:Ea; [| discriminate].
-    destruct (IHa i ra f c0 Ha Ea Hs) as [Hn1 (f1 & c1 & Hs1 & Hrun1)].
-    destruct (run_bang bang f1 c1 (snd ra) Hs1) as (f2 & c2 & Hs2 & Hrunb).
-    destruct (IHp (snd ra) r f2 c2 Hp Hfl (or_introl Hs2)) as [Hn2 (f3 & c3 & Hs3 & Hrun3)].
-    split; [cbn [nosemi_andor]; rewrite Hn1, Hn2; reflexivity |].
-    exists f3, c3. split; [exact Hs3 |]. cbn [print_andor].
+    cbn [faithful_andor] in Hfa. apply andb_true_iff in Hfa. destruct Hfa as [Hfa' Hfp].
+    destruct (IHa f c0 Ha Hfa' Hs) as (a1 & f1 & c1 & Hs1 & _ & Hrun1).
+    destruct (run_bang bang f1 c1 false Hs1) as (f2 & c2 & Hs2 & Hrunb).
+    destruct (IHp f2 c2 Hp Hfp Hs2) as (a3 & f3 & c3 & Hs3 & Ha3 & Hrun3).
+    exists a3, f3, c3. split; [exact Hs3 |]. split; [exact Ha3 |]. cbn [print_andor].
     eapply run_app; [exact Hrun1 |]. kwstep lex_oror. eapply run_app; [exact Hrunb | exact Hrun3].
   - (* QOne *)
-    intros a IH i r f c0 Hwf Hfl Hs. cbn [wf_seq flow_seq sw_seq print_seq nosemi_seq] in *.
-    exact (IH i r f c0 Hwf Hfl Hs).
+    intros a IH f c0 Hwf Hfa Hs. cbn [wf_seq faithful_seq print_seq ends_seq] in *.
+    exact (IH f c0 Hwf Hfa Hs).
   - (* QSeq *)
-    intros q IHq s a IHa i r f c0 Hwf Hfl Hs. cbn [wf_seq] in Hwf.
+    intros q IHq s a IHa f c0 Hwf Hfa Hs. cbn [wf_seq] in Hwf.
     apply andb_true_iff in Hwf. destruct Hwf as [Hq Ha].
-    cbn [flow_seq] in Hfl. unfold opt_bind in Hfl.
-    destruct (flow_seq i q) as [rq |] eqn:Eq; [| discriminate].
-    destruct (IHq i rq f c0 Hq Eq Hs) as [Hn1 (f1 & c1 & Hs1 & Hrun1)].
-    destruct (IHa (snd rq) r f1 c1 Ha Hfl (or_introl Hs1)) as [Hn2 (f2 & c2 & Hs2 & Hrun2)].
-    split; [cbn [nosemi_seq]; rewrite Hn1, Hn2; reflexivity |].
-    exists f2, c2. split; [exact Hs2 |]. cbn [print_seq].
+    cbn [faithful_seq] in Hfa. apply andb_true_iff in Hfa. destruct Hfa as [Hfq Hfa'].
+    destruct (IHq f c0 Hq Hfq Hs) as (a1 & f1 & c1 & Hs1 & _ & Hrun1).
+    destruct (IHa f1 c1 Ha Hfa' Hs1) as (a2 & f2 & c2 & Hs2 & Ha2 & Hrun2).
+    exists a2, f2, c2. split; [exact Hs2 |]. split; [exact Ha2 |]. cbn [print_seq].
     eapply run_app; [exact Hrun1 |].
-    apply (run_app [print_sep s] (print_andor a)) with true f1 c1 (snd rq); [apply run_sep | exact Hrun2].
+    apply (run_app [print_sep s] (print_andor a)) with true f1 c1 false; [apply run_sep | exact Hrun2].
   - (* CL *)
-    intros q IH last i r f c0 Hwf Hfl Hs. cbn [wf_clist] in Hwf. cbn [flow_clist] in Hfl.
-    destruct last as [s |].
-    + unfold opt_bind in Hfl. destruct (flow_seq i q) as [rq |] eqn:Eq; [| discriminate]. injection Hfl as <-.
-      destruct (IH i rq f c0 Hwf Eq Hs) as [Hns (f1 & c1 & Hs1 & Hrun1)].
-      split; [exact Hns |]. exists f1, c1. split; [exact Hs1 |]. cbn [print_clist fst snd].
+    intros q IH last f c0 Hwf Hfa Hs. cbn [wf_clist] in Hwf. cbn [faithful_clist] in Hfa.
+    destruct (IH f c0 Hwf Hfa Hs) as (a1 & f1 & c1 & Hs1 & Ha1 & Hrun1).
+    destruct last as [s |]; cbn [print_clist closed_clist].
+    + exists true, f1, c1. split; [exact Hs1 |]. split; [reflexivity |].
       eapply run_app; [exact Hrun1 | apply run_sep].
-    + exact (IH i r f c0 Hwf Hfl Hs).
+    + exists a1, f1, c1. split; [exact Hs1 |]. split; [exact Ha1 | exact Hrun1].
 Qed.
